@@ -10,6 +10,8 @@ from pathlib import Path
 
 SEEDED = Path("/verif/seeded")
 NEEDS = {
+    "C16-h": "_get_fps_file_shape_and_dtype (used by `bb fps-info` and the file-sequence indexer) now gets shape/dtype from np.load(path, mmap_mode='r') instead of parsing the .npy header; this is identical for every numeric file (valid, wrong-ndim, float, empty), but NumPy refuses to memory-map arrays with Python objects in the dtype, so `bb fps-info` crashes (exit 1, nothing flagged, remaining files not described) only when a described file/directory contains a well-formed object-dtype *.npy (e.g. SMILES strings saved next to the fingerprints); a truncated data section makes it fail as well.",
+    "C12-h": "_py_similarity: the uint64-word reinterpretation that _popcount used on the (always fresh, contiguous) AND result was factored into _as_words() and is now also applied independently to each operand of the AND in _jt_sim_packed_precalc_cardinalities; when exactly one operand can be viewed as words (packed width a multiple of 8 bytes, and one of the two is not contiguous along its last axis: Fortran-ordered or column-strided row matrix vs. contiguous query, or contiguous matrix vs. strided query vector) the two fall out of step: for 8-byte (64-bit) fingerprints the uint8 and uint64 operands broadcast silently and jt_sim_packed returns wrong similarities (even > 1), for wider multiples of 8 bytes it raises a broadcast ValueError. C-contiguous inputs, widths not a multiple of 8 bytes, and a non-contiguous matrix paired with its own (equally strided) rows, as in jt_sim_matrix_packed, are unaffected.",
     "C07-h": "DiameterMerge no longer computes the iSIM and compares it with the threshold; a new helper _jt_isim_reaches tests numerator >= threshold * denominator to 'skip the division'. The two forms only disagree through floating-point rounding when the would-be cluster's iSIM is exactly equal to a threshold whose double is slightly above the decimal (e.g. threshold=0.55 with numerator/denominator 55/100, 99/180, 110/200: 0.55*100 == 55.00000000000001), so a merge that the reference and the legacy uint8/int64 code accept is refused; no effect for 0.65 and the other common thresholds or for non-boundary iSIM values.",
     "C02-g": "bblean/fingerprints.py:_get_fingerprints_from_file_seq now materialises its `files` argument with `files = sorted(files)` (it is iterated twice, so a list is needed; sorting 'normalises' the order the comment says is assumed), while member labels are still assigned in the order the caller fitted / passed the files. It only shows when the largest cluster is split from a LIST of fingerprint files (BitBirch.refine_inplace([paths]), `bb run` refinement, or multiround with split_largest_after_each_midsection_round / refinement via all_fp_paths) AND the caller's file order is not the lexicographic order of the names (e.g. fps-0.npy..fps-11.npy in numeric order, no zero padding): the split singletons then carry the right labels but rows of other files, so counts stay right (all internal checks pass) while stored sums and centroids no longer match the members.",
     "C20-g": "The monitor's peak-file update was factored into a helper that stages the new value with tempfile.mkstemp in the system temp dir (to keep '*.tmp' files out of the outputs) and publishes it with shutil.move instead of a same-directory os.replace. When the output dir is on the same filesystem as the temp dir this is still an atomic rename, but when it is on a different filesystem (e.g. out dir on /dev/shm, scratch or NFS while /tmp is local) shutil.move silently degrades to copy: max-rss.txt is opened with 'wb' (truncated) and filled afterwards, so a reader that falls between that open and the copy gets ValueError from float('').",
